@@ -93,6 +93,11 @@ class HoloPyObject(Serializable):
         value = []
         # heavily inspired by the source of PyYAML's represent_mapping
         node = yaml.nodes.MappingNode(tag, value)
+        if dumper.alias_key is not None:
+            # (as represent_mapping does: an object that occurs twice, e.g.
+            # a prior shared by two spheres, is written once and referred to,
+            # so that it is ONE object again after loading)
+            dumper.represented_objects[dumper.alias_key] = node
         for key, item in data._iteritems():
             node_key = dumper.represent_data(key)
             node_value = dumper.represent_data(item)
